@@ -281,4 +281,7 @@ CXX_PROBES = [
     ('P8', [('bfixed', 'byte', 3), ('plain', 'TF64', 0), ('dynamic', 'FL', 0)]),
     ('P9', [('optional', 'FO', 0), ('optional', 'F64', 0), ('optional', 'E', 0), ('optional', 'U12', 0)]),
     ('P10', [('limited', 'E1', 2), ('ext', 'F12', 0), ('greedy', 'F64', 0)]),
+    ('P11', [('ext', 'FO', 0), ('optional', 'F12', 0), ('ext', 'D8', 0)]),
+    ('P12', [('dynamic', 'u8', 0), ('optional', 'u16', 0), ('dynamic', 'u64', 0), ('optional', 'u64', 0)]),
+    ('P13', [('bdynamic', 'byte', 0), ('limited', 'u8', 2), ('plain', 'D8', 0), ('fixed', 'u16', 3)]),
 ]
